@@ -252,11 +252,10 @@ def judge_stress(c, r, model):
         obs.append(("hang", "%s disconnected client(s) were not torn down within 10 s: clientInput is blocked joining a clientOutput thread "
                     "that went to sleep after the last wake-up (clientGoneHook only ran at shutdown)" % d.get("stuck_after_cycles"),
                     {"defect": "hang", "phase": "disconnect"}, ""))
-    elif z != model["zombies"].get(n, -1) and z != model["zombies_fix6"].get(n, -1):
-        # two protocols are modelled: HEAD's (th_step false: n never-reclaimed threads = finding C13-F13, reported below) and the
-        # one of notes/fix_C13_6.diff (th_step true: none); anything in between is neither
-        obs.append(("corr:zombies", "never-reclaimed threads after %d cycles: model %s (HEAD's protocol) or %s (self-detach), implementation %d" %
-                    (n, model["zombies"].get(n), model["zombies_fix6"].get(n), z), {"kind": "correspondence"}, ""))
+    elif z != model["zombies"].get(n, -1):
+        # HEAD's protocol (600ddcc: a client thread that ends by itself detaches itself; th_run true) leaves none
+        obs.append(("corr:zombies", "never-reclaimed threads after %d cycles: model %s (HEAD's protocol; %s before 600ddcc), implementation %d" %
+                    (n, model["zombies"].get(n), model["zombies_old"].get(n), z), {"kind": "correspondence"}, ""))
     if z != 0:
         obs.append(("threads_not_reclaimed", "%d client threads that have ended were never joined nor detached after %d connect/disconnect cycles "
                     "(resources grow with the number of past connections)" % (z, n), {"defect": "threads_not_reclaimed"}, ""))
@@ -483,7 +482,7 @@ def check(ctx):
     cases, forced, phases, policy, frag = gen_cases(ctx)
     ncyc = list(range(0, 10))
     rc, mout, merr = vlib.run_driver(mexe, "case 0 model\ntable\nwitness\n" + "".join("cycles %d\n" % n for n in ncyc))
-    model = {"table": set(), "palette": set(), "zombies": {}, "zombies_fix6": {}, "witness": []}
+    model = {"table": set(), "palette": set(), "zombies": {}, "zombies_old": {}, "witness": []}
     for l in mout.split("\n"):
         p = l.split()
         if not p:
@@ -494,7 +493,7 @@ def check(ctx):
             model["palette"] = set(p[1:])
         elif p[0] == "cycles":
             model["zombies"][int(p[1])] = int(p[2].split("=")[1])
-            model["zombies_fix6"][int(p[1])] = int(p[4].split("=")[1])
+            model["zombies_old"][int(p[1])] = int(p[4].split("=")[1])
         elif p[0] == "witness":
             model["witness"].append(l)
 
